@@ -182,6 +182,17 @@ class Ob:
             gaps = sorted({re.sub(r'#.*', '', k) for k in model_dict(s.model()) if k.startswith(('ret_I80F48_', 'ret_core_num_'))})
             self.notes.append(f'UNDECIDED {label}: the model depends on unmodelled library arithmetic {gaps}')
             return 'unknown'
+        up = getattr(getattr(eng, 'ex', None), 'unmodelled_preds', None) if eng is not None else None
+        if res == z3.sat and up:
+            # does THIS query (path condition, hypotheses, negated goal - not the global range facts) mention the arbitrary result of an unmodelled std predicate?
+            try:
+                rel = set(free_consts(z3.And(list(r['pc'] if r is not None else []) + list(hyps) + [z3.Not(goal)]))) & set(up)
+            except Exception:
+                rel = set()
+            if rel:
+                self.unknown += 1
+                self.notes.append(f'UNDECIDED {label}: the model depends on the result of a standard-library predicate the encoder has no model for ({sorted({up[n] for n in rel})[:3]}) - a gap of the encoder, never a finding')
+                return 'unknown'
         if res == z3.sat:
             self.sat += 1
             self.sat_labels = getattr(self, 'sat_labels', {}); self.sat_labels[label] = self.sat_labels.get(label, 0) + 1
